@@ -3,5 +3,6 @@
 set -e
 cd "$(dirname "$0")"
 python3 -m vf.build hooked
+python3 -m vf.build asan
 [ -f harness/Makefile ] && make -s -C harness BUILD="$PWD/.build" || true
 echo setup-ok
